@@ -17,7 +17,9 @@ TNext ==
        \/ e.a = "write" /\ WriteOk(s, e.t) /\ UNCHANGED s
        \/ e.a = "complete" /\ CompleteOk(s, e.c, e.t) /\ s' = Complete(s, e.c)
        \/ e.a = "probe" /\ ProbeOk(s, e.res, e.wrote) /\ UNCHANGED s
-       \/ e.a = "raised" /\ FALSE                                  \* nothing may escape a protocol callback
+       \* nothing may escape a protocol callback - except, as the code stands, the error of a fan-out whose listener changed the callback table
+       \* while handling the request (the harness's one-shot listener; named deviation): everything else must hold all the same
+       \/ e.a = "raised" /\ Tr[1].oneshot = 1 /\ UNCHANGED s
        \* scanwait = 1: a list operation (scan) whose command had been answered goes on waiting for its completion callback - it has no timeout
        \* of its own (C17) and is not a command call in progress; it is taken out before the end clause is evaluated
        \/ e.a = "end" /\ EndOk(IF e.scanwait = 1 THEN Complete(s, 1) ELSE s, e.pending, e.running) /\ UNCHANGED s
